@@ -347,6 +347,20 @@ impl MultiRecordLog {
         self.in_mem_queues.last_record(queue)
     }
 
+    /// Read-only projection of the internal state (verification hook).
+    #[cfg(mrecordlog_verif)]
+    pub fn verif_snapshot(&self) -> crate::verif::Snapshot {
+        let rolling_writer = self.record_log_writer.get_underlying_wrt();
+        let (writer_file, writer_offset, writer_buffered) = rolling_writer.verif_cursor();
+        crate::verif::Snapshot {
+            queues: self.in_mem_queues.verif_queues(),
+            files: rolling_writer.verif_files(),
+            writer_file,
+            writer_offset,
+            writer_buffered,
+        }
+    }
+
     /// Return the amount of memory and disk space used by mrecordlog.
     pub fn resource_usage(&self) -> ResourceUsage {
         let disk_used_bytes = self.record_log_writer.size();
